@@ -2,9 +2,11 @@
 
 mod batch;
 mod checks;
+mod conc;
 mod exec;
 mod gen;
 mod hist;
+mod lin;
 mod plan;
 mod report;
 mod rng;
